@@ -64,7 +64,8 @@ OPS = ["holo", "holo-shifted", "holo-moved", "field", "intensity", "subset",
 
 
 def cases(tier, seed):
-    out = []
+    out = [{"id": "detector-construction-histories", "kind": "detbuild",
+            "depth": 2 if tier == "quick" else 3}]
     for th in TH_TIER[tier]:
         for shp in SHAPE_TIER[tier]:
             for isp, sp in enumerate(SPACINGS):
@@ -375,6 +376,85 @@ def _run_mixedz(case, ck):
                 "x", "y", "z").values[:, :, 0].ravel(), "%s: z=0 points vs "
                 "grid" % th)
     return digest(*fps)
+
+
+DETOPS = ["pts(d)", "pts(d,z=5)", "pts(d,z=array)", "pts(d,name)",
+          "pts(sph)", "pts(sph,r=3)", "pts(sph,r=array)",
+          "grid(shape,spacing)", "grid(extra_dims)"]
+
+
+def _run_detbuild(case, ck):
+    """detectors built one after another from the SAME argument objects (a
+    coordinate dictionary, a spacing list, an extra_dims dictionary): every
+    sequence of <= 3 constructions; each detector is the one a fresh copy of
+    the arguments gives, and the arguments are left as they were"""
+    import copy
+    import itertools
+    import holopy as hp
+    from lib import fp_xarray
+
+    def args():
+        return {"d": {"x": np.array([0.1, 0.5, -0.3]),
+                      "y": np.array([0.2, -0.4, 0.0])},
+                "sph": {"theta": np.array([0.3, 1.2, 2.0]),
+                        "phi": np.array([0.0, 2.5, 4.0])},
+                "zs": np.array([1.0, 2.0, 3.0]),
+                "rs": np.array([10.0, 20.0, 30.0]),
+                "shape": [3, 4], "spacing": [0.1, 0.2],
+                "extra": {"illumination": ["red", "green"]}}
+
+    def build(op, A):
+        if op == "pts(d)":
+            return hp.detector_points(A["d"])
+        if op == "pts(d,z=5)":
+            return hp.detector_points(A["d"], z=5)
+        if op == "pts(d,z=array)":
+            return hp.detector_points(A["d"], z=A["zs"])
+        if op == "pts(d,name)":
+            return hp.detector_points(coords=A["d"], name="mine")
+        if op == "pts(sph)":
+            return hp.detector_points(A["sph"])
+        if op == "pts(sph,r=3)":
+            return hp.detector_points(A["sph"], r=3.0)
+        if op == "pts(sph,r=array)":
+            return hp.detector_points(A["sph"], r=A["rs"])
+        if op == "grid(shape,spacing)":
+            return hp.detector_grid(A["shape"], A["spacing"])
+        if op == "grid(extra_dims)":
+            return hp.detector_grid(A["shape"], A["spacing"],
+                                    extra_dims=A["extra"])
+        raise KeyError(op)
+
+    def state(A):
+        return repr(sorted((k, sorted((kk, np.asarray(vv).tolist())
+                                      for kk, vv in v.items())
+                            if isinstance(v, dict)
+                            else np.asarray(v).tolist())
+                           for k, v in A.items()))
+    fresh = {op: fp_xarray(build(op, args())) for op in DETOPS}
+    acc = []
+    depth = case.get("depth", 2)
+    for seq in itertools.chain.from_iterable(
+            itertools.product(DETOPS, repeat=L) for L in range(1, depth + 1)):
+        A = args()
+        before = state(A)
+        for k, op in enumerate(seq):
+            try:
+                got = fp_xarray(build(op, A))
+            except Exception as e:              # noqa
+                got = "raised %s: %s" % (type(e).__name__, e)
+            ck.trans += 1
+            ck.true("detector-from-shared-arguments", got == fresh[op],
+                    "%s as step %d of %s (all built from the same argument "
+                    "objects) is not the detector that fresh arguments give"
+                    "%s" % (op, k + 1, ">".join(seq),
+                            ": " + got if got.startswith("raised") else ""))
+            ck.true("input-untouched:detector-arguments", state(A) == before,
+                    "%s (step %d of %s) changed the caller's argument "
+                    "objects: %s -> %s" % (op, k + 1, ">".join(seq),
+                                           before, state(A)))
+        acc.append(seq[-1])
+    return digest(*acc, *sorted(fresh.values()))
 
 
 def _run_coordforms(case, ck):
@@ -939,7 +1019,7 @@ def run_case(case):
           "subsetforms": _run_subsetforms, "large": _run_large, "mlcrops": _run_mlcrops,
           "mixedz": _run_mixedz, "biglarge": _run_biglarge,
           "gridfar": _run_gridfar, "lenscounts": _run_lenscounts,
-          "coordforms": _run_coordforms,
+          "coordforms": _run_coordforms, "detbuild": _run_detbuild,
           "history": _run_history}[case["kind"]](case, ck)
     return ck.result(fp=fp)
 
